@@ -259,10 +259,49 @@ func VxC04Fresh() {
 		panic(err)
 	}
 	exec := &syncExecutor{state: db.syncState, pos: ltx.Pos{TXID: pos}}
+	if vx.Param("VS", 0) == 1 {
+		// the round as syncLocked runs it: verify and copy in one call of the real
+		// verifyAndSyncWithExecutor (its own bookkeeping included); judged on content only
+		vxCheckWholeRound(h, db, pos, exec)
+		return
+	}
 	info, err := db.verifyWithExecutor(context.Background(), exec)
 	vxCheckContinuity(h, info, err)
 	if err == nil && vx.Param("ROUND", 1) == 1 {
 		vxCheckRound(h, db, pos, exec, info)
+	}
+}
+
+// vxCheckWholeRound: one real verifyAndSyncWithExecutor round; whatever it decided
+// and published, the replica afterwards is the source.
+func vxCheckWholeRound(h *vxHistory, db *DB, pos ltx.TXID, exec *syncExecutor) {
+	if db.f == nil {
+		f, err := os.Open(db.Path())
+		if err != nil {
+			panic(err)
+		}
+		db.f = f
+		defer f.Close()
+	}
+	res, err := db.verifyAndSyncWithExecutorReal(context.Background(), false, exec, 0)
+	if err != nil {
+		return // loud
+	}
+	_, replica, source := h.states()
+	if res.synced {
+		got, derr := vxDecodeLTX(vx.FSReadFile(db.LTXPath(0, pos+1, pos+1)))
+		vx.Assert("round-file-decodes", derr == nil)
+		if derr != nil {
+			return
+		}
+		for _, p := range got.pages {
+			for i := uint32(0); i < 3; i++ {
+				replica[i] = vx.IteU64(p.pgno == i+1, p.tag, replica[i])
+			}
+		}
+	}
+	for i := 0; i < 3; i++ {
+		vx.Assert("next-sync-brings-replica-to-source", replica[i] == source[i])
 	}
 }
 
